@@ -14,7 +14,7 @@ def main(tier):
                 "searcher (scripted Sink verdicts and scripted Read faults incl. ErrorKind::Interrupted). Non-trivial as in C03.")
     chk.assumptions = ["matcher abstracted to 'line contains byte m'", "bounds: specs/search/C16_*.cfg",
                        "multi-line strategy and printer-level -m N are covered by SearcherML / the rg-level part of this check"]
-    cfgs = ["C16_quick"] if tier == "quick" else ["C16_quick", "C16_deep"]
+    cfgs = ["C16_quick", "C16_bin"] if tier == "quick" else ["C16_quick", "C16_bin", "C16_deep"]
     for c in cfgs:
         sc.explore(chk, c, variants=("as_is", "onebyte", "maxread", "intr", "mmap"), timeout=3000)
     chk.exhaustive = True
